@@ -52,7 +52,17 @@ def parse_sx(s: str):
 def first_diff(a, b, path=()):
     """Path and values of the first difference between two parsed S-expressions (or None)."""
     if isinstance(a, str) or isinstance(b, str):
-        return None if a == b else (path, a, b)
+        if a == b:
+            return None
+        if isinstance(a, str) and isinstance(b, str) and '/' in a + b:
+            # a float32 value against the model's exact rational (e.g. 1/3): equal up to rounding
+            try:
+                fa, fb = float(Fraction(a)), float(Fraction(b))
+                if abs(fa - fb) <= 1e-6 * max(1.0, abs(fa), abs(fb)):
+                    return None
+            except (ValueError, ZeroDivisionError):
+                pass
+        return (path, a, b)
     if len(a) != len(b):
         return (path, f'len {len(a)}: {sx(a)[:200]}', f'len {len(b)}: {sx(b)[:200]}')
     for i, (x, y) in enumerate(zip(a, b)):
